@@ -472,3 +472,61 @@ func ZZ_C15_keptAcrossCanaryReplicaSets() {
 	nondet.Assert("C15.across.earlier-node-kept", len(st.Status.Canary.Nodes) == 1 && st.Status.Canary.Nodes[0] == earlier)
 	nondet.Reach("C15.across.other-replicaset", prevRS == "foo-older" && earlier == "node2")
 }
+
+// ZZ_C15_templateRestrictsTheChoice: "each refers to an existing node that ... is eligible for the pod"
+// when the pod template restricts eligibility twice: a nodeSelector (pool=agents) AND a required node
+// affinity (zone In [a]).  Three nodes, each in or out of the pool and in zone a or b, one or two
+// canary nodes requested, an arbitrary earlier selection of one node: every selected node satisfies
+// both restrictions, a still-eligible earlier choice is kept, an earlier choice that is no longer
+// eligible is dropped, and too few eligible nodes is an error.
+func ZZ_C15_templateRestrictsTheChoice() {
+	replicas := 1
+	if nondet.Bool("twoReplicas") {
+		replicas = 2
+	}
+	r := intstr.FromInt(replicas)
+	canary := &datadoghqv1alpha1.ExtendedDaemonSetSpecStrategyCanary{Replicas: &r}
+	ds := zzEDS("ns", "foo", "B", canary)
+	ds.Spec.Template.Spec.NodeSelector = map[string]string{"pool": "agents"}
+	ds.Spec.Template.Spec.Affinity = &corev1.Affinity{NodeAffinity: &corev1.NodeAffinity{RequiredDuringSchedulingIgnoredDuringExecution: &corev1.NodeSelector{
+		NodeSelectorTerms: []corev1.NodeSelectorTerm{{MatchExpressions: []corev1.NodeSelectorRequirement{{Key: "zone", Operator: corev1.NodeSelectorOpIn, Values: []string{"a"}}}}}}}}
+	c := fakeapi.New()
+	eligible := map[string]bool{}
+	nEligible := 0
+	for i := 0; i < 3; i++ {
+		l := "node" + strconv.Itoa(i)
+		inPool, zoneA := nondet.Bool(l+".inPool"), nondet.Bool(l+".zoneA")
+		node := &corev1.Node{ObjectMeta: metav1.ObjectMeta{Name: l, Labels: map[string]string{"zone": "b", "pool": "other"}}}
+		if inPool {
+			node.Labels["pool"] = "agents"
+		}
+		if zoneA {
+			node.Labels["zone"] = "a"
+		}
+		c.Nodes = append(c.Nodes, node)
+		eligible[l] = inPool && zoneA
+		if inPool && zoneA {
+			nEligible++
+		}
+	}
+	earlier := nondet.String("selectedEarlier", "none", "node0", "node2")
+	status := &datadoghqv1alpha1.ExtendedDaemonSetStatusCanary{ReplicaSet: "foo-b"}
+	if earlier != "none" {
+		status.Nodes = []string{earlier}
+	}
+	rs := zzRSOf(ds, ds.Spec.Template, "foo-b", nondet.Base().Add(-time.Minute))
+	err := zzReconciler(c).selectNodes(logr.Logger{}, ds, &ds.Spec, rs, status)
+	nondet.Assert("C15.template.error-when-too-few", nondet.Implies(nEligible < replicas, err != nil))
+	nondet.Assert("C15.template.succeeds-when-enough", nondet.Implies(nEligible >= replicas, err == nil))
+	if err == nil {
+		nondet.Assert("C15.template.count", len(status.Nodes) == replicas)
+		for _, n := range status.Nodes {
+			nondet.Assert("C15.template.every-selected-node-eligible", eligible[n])
+		}
+		if earlier != "none" && eligible[earlier] {
+			nondet.Assert("C15.template.eligible-earlier-choice-kept", zzHas(status.Nodes, earlier))
+		}
+	}
+	nondet.Observe("selected", len(status.Nodes))
+	nondet.Reach("C15.template.affinity-matches-but-pool-does-not", err == nil && nEligible == replicas && !eligible["node0"])
+}
